@@ -43,6 +43,21 @@ class C02(TreeCheck):
         ks2 = explore.derive_K(F, base, rng, len(ds), n_workers=1)
         for d, k in zip(ds, ks2):
             out.append(({"rules": d[0]["rules"] + k[0]["rules"]}, {"mode": "DK", "fn": k[1]["fn"], "act": k[1]["act"], "dfn": d[1]["fn"]}))
+        # a worker of the second wave (spawned by a submit while the manager thread is already running) dies at start-up
+        if base["meta"].get("second_wave"):
+            mw = base["meta"]["kw"]["max_workers"]
+            late = sorted({p["proc"] for p in explore.points_of(F, role="worker") if p["proc"] and p["proc"].startswith("LokyProcess-") and int(p["proc"].split("-")[1].split(":")[0]) > mw})
+            startup_quals = ["<module>", "BaseProcess._bootstrap", "Queue.__setstate__", "SimpleQueue.__setstate__", "SemLock.__setstate__", "_process_worker", "prepare", "_enable_faulthandler_if_needed"]
+            for w in late[:2]:
+                pts = [p for p in explore.points_of(F, role="worker", proc=w, quals=startup_quals) if not (p["qual"] == "_process_worker" and p["rel"] > 50)]
+                for pt in explore.stratified_sample(pts, 4 if quick else 12, rng):
+                    act = rng.choice(explore.KILL_ACTIONS)
+                    rules = [explore.rule(pt, act, hit=1)]
+                    if rng.random() < 0.5:
+                        # widen the window between submit's bookkeeping and the spawn it triggers
+                        for dp in explore.points_of(F, role="driver", thr="user", quals=["ProcessPoolExecutor._ensure_executor_running"])[:1]:
+                            rules.append(explore.rule(dp, ["sleep", 0.03], hit=0))
+                    out.append(({"rules": rules}, {"mode": "K2", "fn": pt["qual"], "act": act[0] + str(act[1])}))
         out += explore.derive_Z(rng, 1 if quick else 3)
         return out
 
